@@ -44,13 +44,17 @@ TRUSTED_BASE = [
 ASSUMPTIONS = [
     "begin_circuit re-initialises the backend completely (binit does not depend on the previous backend state); checked on the real backends by the reset-vs-fresh search only",
     "operations with measured parameters are used only inside the program that owns the RegRef (Program.append enforces it)",
+    "the Coq model resolves q[k].par in the RegRefs of the program being run; in the current source q[k].par of all programs is one cached sympy object (known finding params:measured-parameter-retargeted), so correspondence sessions let one RegRef set own all measured parameters and the search covers the rest",
+    "optimize=True together with measured parameters is left to C03 (the optimiser's known defect there moves such gates before the measurement)",
+    "state comparisons use atol 1e-6 (homodyne post-selection in the simulators is only accurate to ~1e-7); states with NaN/inf count as an error outcome",
     "shots = 1; no New/Del inside segments (register bookkeeping is C08), no free parameters in the Coq model (they are covered by the search)",
     "storing measured values in RegRef.val, binding FreeParameter values and setting Program.locked are documented effects of run/compile and are not counted as 'altering the user's program'",
 ]
 MANIFEST_TEXT = ("C09_compositional_calls (full), C09_compositional_concat (full for the repaired copy-by-mode; for the "
                  "code as written with the hypothesis that the earlier segment measures no mode but 0 — refuted otherwise), "
                  "C09_reset_fresh / C09_reset_clears (full), C09_store_unchanged (full for try/finally Gate.apply; for the "
-                 "code as written on sessions where no call raised — refuted otherwise), C09_decompose_* (full)")
+                 "code as written on sessions where no call raised — refuted otherwise), C09_decompose_* (full); four _refuted witnesses "
+                 "(p[0] after exception, feed-forward across segments x2, re-running a linked copy) for the defects recorded in known_findings.d/C09.json")
 
 # ------------------------------------------------------------------------------------------
 # class table shared by model and implementation: id -> (name, kind, n_params, n_modes)
@@ -503,14 +507,49 @@ def detect_variant():
     return (safe, fixed, linkok)
 
 
+def _split_calls(u):
+    v = copy.deepcopy(u)
+    v["hist"] = []
+    for c in u["hist"]:
+        if c[0] == "run":
+            v["hist"] += [["run", [i]] for i in c[1]]
+        else:
+            v["hist"].append(c)
+    return v
+
+
 def predicate_on_impl(u, k):
     """Evaluate what the property itself says on the session prefix ending at call k.
     Returns (signature, text) if the implementation violates it there, else None."""
-    # (1) op.p lists after the call equal the ones before the session
     outs = run_impl(u)
+    # (2) one call with several programs = successive calls (sessions without exceptions)
+    if all(o["err"] is None for o in outs):
+        v = _split_calls(u)
+        if len(v["hist"]) != len(u["hist"]):
+            o2 = run_impl(v)
+            if all(o["err"] is None for o in o2):
+                for key in ("trace", "samples", "vals", "store", "nrun"):
+                    if outs[-1][key] != o2[-1][key]:
+                        return ("session:one-call-vs-successive-calls:" + key,
+                                "running the programs of each call one by one gives a different '%s': %s vs %s" % (key, outs[-1][key], o2[-1][key]))
+        else:
+            # (3) after a reset the rest of the session behaves as on a new engine (fresh objects)
+            rs = [i for i, c in enumerate(u["hist"]) if c[0] == "reset"]
+            if rs and rs[-1] < len(u["hist"]) - 1 and rs[-1] > 0:
+                v = copy.deepcopy(u)
+                v["hist"] = u["hist"][rs[-1] + 1:]
+                o2 = run_impl(v)
+                for key in ("err", "samples", "nrun", "vals"):
+                    if outs[-1][key] != o2[-1][key]:
+                        return ("session:reset-vs-fresh:" + key, "the calls after the last reset give a different '%s' than on a new engine with new programs: %s vs %s"
+                                % (key, outs[-1][key], o2[-1][key]))
+                t1, t2 = outs[-1]["trace"], o2[-1]["trace"]
+                if (t1 is None) != (t2 is None) or (t1 and t1[1][t1[1].index(["EvBegin", t1[1][0][1]]):] != t2[1]):
+                    return ("session:reset-vs-fresh:trace", "backend calls after the last reset differ from those on a new engine: %s vs %s" % (t1, t2))
+    # (1) op.p lists after the call equal the ones before the session
     before = [[p for p in o["p"]] for o in u["ops"]]
     if outs[k]["store"] != before:
-        return ("apply:p0-not-restored-after-exception" if outs[k]["err"] else "apply:p-changed",
+        return ("apply:p0-not-restored-after-exception" if any(o["err"] for o in outs[:k + 1]) else "apply:p-changed",
                 "op.p differs from its value before the session after call %d (outcome %s): %s vs %s"
                 % (k, outs[k]["err"], outs[k]["store"], before))
     return None
@@ -521,7 +560,7 @@ def correspondence(ctx):
     variant = detect_variant()
     ctx.notes.append("model variant matching the current source: safe=%s fixed=%s linkok=%s" % variant)
     ctx.extra["variant"] = {"safe": variant[0], "fixed": variant[1], "linkok": variant[2]}
-    n_cases = ctx.budget(300, 3000)
+    n_cases = ctx.budget(300, 9000)
     sessions = [PROBE_SAFE, PROBE_FIXED, PROBE_LINK]
     for f in sorted(glob.glob(os.path.join(coq.VERIF, "corpus", "C09-*.json"))):
         d = json.load(open(f)).get("data", {})
@@ -620,7 +659,10 @@ def same_sig(a, b, tol):
 def attempt(fn, backend):
     try:
         res = fn()
-        return ("ok", state_sig(res, backend))
+        sig = state_sig(res, backend)
+        if not all(np.all(np.isfinite(x)) for x in sig):
+            return ("err", "non-finite-state")      # e.g. post-selection on a zero-probability outcome
+        return ("ok", sig)
     except Exception as e:  # noqa: BLE001
         return ("err", type(e).__name__)
 
@@ -921,6 +963,8 @@ def gen_untouched(rng, backend):
         cm.append(["Dgate", [{"re": 0.3, "im": 0.2}, 0.0], [0], rng.random() < 0.7, {}])   # complex r: _apply raises ValueError
         fail = "complex"
     co = rng.choice([None, None, {"optimize": False}, {"warn_connected": False}, {"optimize": True}])
+    if co and co.get("optimize") and ("ff" in feat or fail == "unmeasured"):
+        co = {"optimize": False}     # optimising circuits with measured parameters is C03's subject (known defect there)
     return {"n": n, "backend": backend, "cmds": cm, "args": args, "fail": fail, "compile_options": co,
             "precompile": rng.random() < 0.3, "sibling": "ff" in feat and rng.random() < 0.35, "feat": sorted(feat)}
 
@@ -1091,7 +1135,7 @@ def search(ctx):
                 return b
         return "gaussian"
 
-    for _ in range(ctx.budget(60, 700)):
+    for _ in range(ctx.budget(60, 2400)):
         spec = gen_compose(rng, pick())
         d = {"check": "compose", "spec": spec}
         out = compose_patterns(spec)
@@ -1100,13 +1144,13 @@ def search(ctx):
                  bucket="compose:%s:%s" % (spec["backend"], "+".join(spec["feat"]) or "plain"))
         if v:
             ctx.counterexample(v[0], v[1], d)
-    for _ in range(ctx.budget(30, 350)):
+    for _ in range(ctx.budget(30, 1200)):
         spec = gen_reset(rng, pick())
         v = reset_verdict(spec)
         ctx.case({"reset": spec}, nontrivial=True, bucket="reset:" + spec["backend"])
         if v:
             ctx.counterexample(v[0], v[1], {"check": "reset", "spec": spec})
-    for _ in range(ctx.budget(60, 700)):
+    for _ in range(ctx.budget(60, 2400)):
         spec = gen_untouched(rng, pick())
         vs, _ = untouched_verdicts(spec)
         ctx.case({"untouched": spec}, nontrivial=bool(spec["fail"] or spec["precompile"] or spec["sibling"] or
@@ -1114,7 +1158,7 @@ def search(ctx):
                  bucket="untouched:%s:%s" % (spec["backend"], spec["fail"] or "ok"))
         for sig, text in vs:
             ctx.counterexample(sig, text, {"check": "untouched", "spec": spec})
-    for k in range(ctx.budget(3, 20)):
+    for k in range(ctx.budget(3, 40)):
         N = rng.randint(1, 3)
         T = rng.randint(2, 4)
         spec = {"N": N, "a": [round(rng.uniform(0, 1.5), 3) for _ in range(T)], "b": [round(rng.uniform(0, 1.5), 3) for _ in range(T)],
